@@ -14,6 +14,8 @@ case "$name" in
   *-f) base="${name%-f}"; wt=/tmp/seed6-$base; out=/tmp/seed6-$base-out ;;
   *-g) base="${name%-g}"; wt=/tmp/seed7-$base; out=/tmp/seed7-$base-out ;;
   *-h) base="${name%-h}"; wt=/tmp/seed8-$base; out=/tmp/seed8-$base-out ;;
+  *-i) base="${name%-i}"; wt=/tmp/seed9-$base; out=/tmp/seed9-$base-out ;;
+  *-j) base="${name%-j}"; wt=/tmp/seed10-$base; out=/tmp/seed10-$base-out ;;
   *)   wt=/tmp/seed-$name; out=/tmp/seed-$name-out ;;
 esac
 dst=/verif/seeded/$name
@@ -30,6 +32,8 @@ suite_ok=1
 # a demo that lives inside the binary's test module (private code) is skipped while running the existing suite
 demo_fn=""
 if [ ! -f "$wt/tests/seeded_demo.rs" ]; then demo_fn=$(grep -A2 "^+.*#\[test\]" "$out/demo.diff" | grep -oE "fn [a-zA-Z0-9_]+" | head -1 | cut -d" " -f2); fi
+# several demo tests inside one appended module: address them by the module name
+if [ ! -f "$wt/tests/seeded_demo.rs" ] && grep -q "^+.*mod seeded_demo" "$out/demo.diff"; then demo_fn=seeded_demo; fi
 bin_t="--bin adlt"; [ -n "$demo_fn" ] && bin_t="--bin adlt -- --skip $demo_fn"
 for t in "--lib" "$bin_t" "--test integration_bin -- --skip bin_remote_invalidport"; do
   if cargo test --offline $t >> "$log.full" 2>&1; then echo "PASS cargo test $t" >> "$log"; else
